@@ -137,6 +137,9 @@ type lMachine struct {
 	execDep   int
 	execWd    int
 	c19       *c19State
+	c06Moves  int
+	c06Req    map[string][3]interface{}
+	c06Neg    map[string]bool
 }
 
 func (m *lMachine) fail(assertion, ctx, f string, a ...interface{}) {
@@ -203,7 +206,7 @@ func genLPool(rt *rapid.T, pair int, ranged bool, lbl string) lPool {
 }
 
 func newLMachine(t rec.TB, r *rec.Rec, prop string, cs *lCase) *lMachine {
-	m := &lMachine{t: t, r: r, prop: prop, cs: cs, feeExp: map[string]sdk.Int{}, mmInit: map[string]sdk.Int{}, ok: map[string]int{}}
+	m := &lMachine{t: t, r: r, prop: prop, cs: cs, feeExp: map[string]sdk.Int{}, mmInit: map[string]sdk.Int{}, ok: map[string]int{}, c06Req: map[string][3]interface{}{}, c06Neg: map[string]bool{}}
 	cfg := &cs.Cfg
 	m.c = world.NewChain(world.Options{Seed: cfg.Seed, NumAccs: lNumLP + lNumMM + lMaxTrade})
 	c := m.c
@@ -343,7 +346,9 @@ func (m *lMachine) genOp(rt *rapid.T, i int) lOp {
 	cfg := &m.cs.Cfg
 	lbl := func(s string) string { return fmt.Sprintf("%s_%d", s, i) }
 	kinds := []string{"limit", "limit", "limit", "limit", "market", "mm", "cancel", "cancelall", "cancelmm", "deposit", "withdraw", "farm", "unfarm", "depositfarm", "unfarmwithdraw", "block", "block", "block", "newpool"}
-	if m.prop == "C19" {
+	if m.prop == "C06" {
+		kinds = []string{"deposit", "deposit", "deposit", "depositfarm", "depositfarm", "withdraw", "withdraw", "withdraw", "unfarmwithdraw", "farm", "unfarm", "wforeign", "wforeign", "limit", "block", "block", "block", "block", "newpool", "newpool"}
+	} else if m.prop == "C19" {
 		kinds = []string{"gauge", "gauge", "gauge", "farm", "farm", "depositfarm", "depositfarm", "depositfarm", "unfarm", "deposit", "withdraw", "epoch", "epoch", "epoch", "epoch", "epoch", "block", "limit", "limit", "oprice", "newpool", "distr"}
 	} else if m.prop == "C04" {
 		kinds = append(kinds, "deposit", "withdraw", "farm", "unfarm", "block")
@@ -359,6 +364,29 @@ func (m *lMachine) genOp(rt *rapid.T, i int) lOp {
 	switch k {
 	case "epoch", "oprice", "gauge", "distr":
 		return m.c19GenOp(rt, i, k)
+	case "wforeign":
+		// two pools of one app
+		type pp struct{ a, b int }
+		var cands []pp
+		for a := range m.pools {
+			for b := range m.pools {
+				if a != b && m.pools[a].app == m.pools[b].app {
+					cands = append(cands, pp{a, b})
+				}
+			}
+		}
+		if len(cands) == 0 {
+			op.K = "newpool"
+			np := genLPool(rt, rapid.IntRange(0, len(cfg.Pairs)-1).Draw(rt, lbl("pair")), rapid.Bool().Draw(rt, lbl("ranged")), lbl("np"))
+			op.New = &np
+			op.Actor = rapid.IntRange(0, lNumLP-1).Draw(rt, lbl("lp"))
+			return op
+		}
+		x := cands[rapid.IntRange(0, len(cands)-1).Draw(rt, lbl("pools"))]
+		op.Pool, op.Order = x.a, x.b
+		op.Actor = rapid.IntRange(0, lNumLP-1).Draw(rt, lbl("lp"))
+		op.Extra = rapid.SampledFrom([]int64{1, 100, 500, 1000}).Draw(rt, lbl("permille"))
+		return op
 	case "block":
 		op.Dt = rapid.SampledFrom([]int64{5, 5, 6, 60, 3600, 90000}).Draw(rt, lbl("dt"))
 	case "limit", "market":
@@ -436,6 +464,10 @@ func (m *lMachine) genOp(rt *rapid.T, i int) lOp {
 
 func (m *lMachine) apply(i int, op lOp) {
 	c, cfg := m.c, &m.cs.Cfg
+	if m.prop == "C06" && op.K != "block" {
+		pre := m.c06Snap()
+		defer func() { m.c06Check(i, "after:"+op.K, pre) }()
+	}
 	switch op.K {
 	case "block":
 		m.block(i, op.Dt)
@@ -556,6 +588,17 @@ func (m *lMachine) apply(i int, op lOp) {
 	case "newpool":
 		if err := m.createPool(*op.New, op.Actor); err == nil {
 			m.ok["newpool"]++
+		}
+	case "wforeign":
+		// a withdrawal from pool op.Pool that offers the share coin of another pool (op.Order) of the same app
+		pr, other := m.pools[op.Pool], m.pools[op.Order]
+		opool, _ := m.k.GetPool(c.Ctx, other.app, other.id)
+		have := c.Bal(c.Accs[op.Actor].Addr, opool.PoolCoinDenom)
+		amt := have.MulRaw(op.Extra).QuoRaw(1000)
+		if amt.IsPositive() {
+			if _, err := c.Deliver(liqtypes.NewMsgWithdraw(pr.app, c.Accs[op.Actor].Addr, pr.id, sdk.NewCoin(opool.PoolCoinDenom, amt))); err == nil {
+				m.ok["wforeign"]++
+			}
 		}
 	}
 	m.trackOrders(i)
@@ -720,11 +763,19 @@ func (m *lMachine) cancelMM(i int, op lOp) {
 
 func (m *lMachine) block(i int, dt int64) {
 	c := m.c
+	var c06pre map[string]c06Pool
+	if m.prop == "C06" {
+		c06pre = m.c06Snap()
+	}
 	if err := c.EndBlockObserveRecover(); err != nil {
 		m.fail(m.prop+".block-hook-panic", "end-block", "step %d: %v", i, err)
 	}
 	m.trackOrders(i)
 	m.invariants(i, "end-block", true)
+	if c06pre != nil {
+		// judged here, while the executed requests are still on record (the next begin-block deletes them)
+		m.c06Check(i, "block", c06pre)
+	}
 	var c19pre *c19Snap
 	c19vals := map[string]map[string]*big.Rat{}
 	if m.prop == "C19" {
